@@ -21,7 +21,7 @@ def run(prog, rep):
     rep.rule("C09.zero-for-later-cohorts", "cohort tables vanish for cohorts later than the year")
     rep.rule("C09.cohort-share", "stock by cohort = inflow rate x interval length x survival share")
     rep.rule("C09.cohort-conservation", "entered = in stock + left so far, for every cohort")
-    for c, m in (("DynamicStockModel", "get_stock_by_cohort"), ("DynamicStockModel", "get_outflow_by_cohort"), ("DynamicStockModel", "_compute_outflow")):
+    for c, m in (("DynamicStockModel", "get_stock_by_cohort"), ("DynamicStockModel", "get_outflow_by_cohort")):
         prog.method(c, m)
     jobs = [("inflow", c) for c in SC.dsm_configs(rep.tier)]
     jobs += [("stockdriven", dict(c, both_generic=True)) for c in SC.dsm_configs(rep.tier) if c["n_pts"] == 1 and c["n_t"] <= 4]
